@@ -76,14 +76,17 @@ class Ref:
 
 
 class ObjCell:
-    __slots__ = ("cls", "attrs")
+    __slots__ = ("cls", "attrs", "partial")
 
-    def __init__(self, cls, attrs=None):
+    def __init__(self, cls, attrs=None, partial=False):
         self.cls = cls
         self.attrs = dict(attrs or {})
+        # partial: built from a contract's input shape, which names only the fields the contract knows about; reading
+        # any other instance field is outside the contract's reach (Unsupported), not an AttributeError of the program
+        self.partial = partial
 
     def copy(self):
-        return ObjCell(self.cls, self.attrs)
+        return ObjCell(self.cls, self.attrs, self.partial)
 
 
 class DictCell:
@@ -147,17 +150,32 @@ class SeqCell:
 class MapCell:
     """dict with symbolic scalar keys: dom: Array K Bool, val: Array K V (V scalar sort or Int for refs)."""
 
-    __slots__ = ("ksort", "vkind", "dom", "val", "refcls")
+    __slots__ = ("ksort", "vkind", "dom", "val", "refcls", "fields")
 
-    def __init__(self, ksort, vkind, dom, val, refcls=None):
+    def __init__(self, ksort, vkind, dom, val, refcls=None, fields=None):
         self.ksort = ksort
         self.vkind = vkind
         self.dom = dom
         self.val = val
         self.refcls = refcls
+        # vkind == "ref": the values are objects of class refcls, one per key, stored as a struct of arrays:
+        # fields[name] = (kind, Array K -> sort(kind))
+        self.fields = dict(fields or {})
 
     def copy(self):
-        return MapCell(self.ksort, self.vkind, self.dom, self.val, self.refcls)
+        return MapCell(self.ksort, self.vkind, self.dom, self.val, self.refcls, self.fields)
+
+
+class MapElem:
+    """The object stored under a (symbolic) key of a reference-valued MapCell; attribute reads/writes go to the
+    map's field arrays at that key, so two keys that are equal denote the same object."""
+
+    __slots__ = ("map_ref", "key", "old")
+
+    def __init__(self, map_ref, key, old=False):
+        self.map_ref = map_ref
+        self.key = key
+        self.old = old
 
 
 class RangeV:
